@@ -434,7 +434,7 @@ theorem transfer_conserved (c : Cfg) (r : Reader) {σ : Type} (R : UReader σ) (
   rw [xrun_split]
   exact tok_conserved hcap (xfers ops) st0
 
-/-- `UTXOSandbox.Transfer` as found (before `fix:` c846482) refused only `amount = 0`; what it
+/-- `UTXOSandbox.Transfer` as found (before `fix:` abdcf7e) refused only `amount = 0`; what it
 appended to the outputs for inputs worth `total` (amounts are written with `big.Int.Bytes()`, the
 absolute value) -/
 def outputsAsFound (total amt : Int) : List Nat :=
